@@ -59,13 +59,18 @@ def observe(c, typ, seed, samples, dose):
     M, chunks = c["M"], c["chunks"]
     ev = {"case": c, "typ": typ, "seed_fixed": seed is not None, "samples": samples, "raised": False, "counts_ok": True, "repro_ok": True,
           "lazy_eq_eager": True, "chunking_indep": True, "distinct_members": True, "z_mean_milli": 0, "z_var_milli": 0,
-          "multi_block": len(chunks) > 1}
+          "multi_block": len(chunks) > 1, "eager_members_independent": True, "seed_zero": seed == 0, "dose_series": isinstance(dose, (list, tuple))}
     try:
         e, signal = noisy(typ, M, [M], False, seed, samples, dose)
         l, _ = noisy(typ, M, chunks, True, seed, samples, dose)
         ev["counts_ok"] = bool(np.all(e >= 0) and np.all(e == np.rint(e)) and np.all(l >= 0) and np.all(l == np.rint(l)))
-        lam = signal * dose
-        if samples > 1:
+        if isinstance(dose, (list, tuple)):
+            lam = np.stack([signal * d for d in dose])
+            if samples > 1:
+                lam = np.broadcast_to(lam[:, None] if e.ndim == lam.ndim + 1 and e.shape[0] == len(dose) else lam, e.shape)
+        else:
+            lam = signal * dose
+        if lam.shape != e.shape:
             lam = np.broadcast_to(lam, e.shape)
         n = lam.size
         zmean = ((e - lam).sum() / np.sqrt(lam.sum()))
@@ -80,11 +85,26 @@ def observe(c, typ, seed, samples, dose):
             other = [M] if len(chunks) > 1 else ([1] * M if M > 1 else [M])
             l3, _ = noisy(typ, M, other, True, seed, samples, dose)
             ev["chunking_indep"] = bool(np.array_equal(l, l3))
+        # one block (eager): standardised residuals of every pair of members are uncorrelated and no two members are identical
+        nb = len(signal.shape) - 1                                    # base dimensions of one measurement
+        res = ((e - lam) / np.sqrt(lam)).reshape((-1, int(np.prod(e.shape[-nb:]))))
+        raw = e.reshape(res.shape)
+        npx = res.shape[1]
+        worst = 0.0
+        for i in range(res.shape[0]):
+            for j in range(i + 1, res.shape[0]):
+                r = float(np.corrcoef(res[i], res[j])[0, 1])
+                worst = max(worst, abs(r) * np.sqrt(npx))
+                if np.array_equal(raw[i], raw[j]):
+                    worst = 1e9
+        ev["corr_z_milli"] = int(min(round(1000 * worst), 2_000_000_000))
+        ev["eager_members_independent"] = bool(worst <= 6.0)
         # distinct members (equal expectation) must not carry identical noise
         flat_e = e.reshape((-1,) + e.shape[-(e.ndim - (1 if samples == 1 else 2)):]) if False else None
         for arr_ in (e, l):
-            mem = arr_.reshape(-1, *arr_.shape[(2 if samples > 1 else 1):]) if samples > 1 else arr_
-            mem = mem.reshape(mem.shape[0], -1)
+            mem = arr_.reshape((-1, int(np.prod(arr_.shape[-nb:]))))
+            if isinstance(dose, (list, tuple)) and len(set(dose)) > 1:
+                continue          # members of different dose differ by expectation; the pairwise correlation above judges them
             for i in range(mem.shape[0]):
                 for j in range(i + 1, mem.shape[0]):
                     if np.array_equal(mem[i], mem[j]):
@@ -116,19 +136,19 @@ def judge(ctx: Ctx, evs):
 
 def self_test(ctx: Ctx):
     g = {"raised": False, "counts_ok": True, "z_mean_milli": 500, "z_var_milli": -1200, "seed_fixed": True, "repro_ok": True, "lazy_eq_eager": True,
-         "chunking_indep": True, "distinct_members": True}
+         "chunking_indep": True, "distinct_members": True, "eager_members_independent": True}
     res = ctx.validate("NoiseTrace", [[g], [dict(g, z_mean_milli=9000)], [dict(g, chunking_indep=False)], [dict(g, distinct_members=False)],
-                                      [dict(g, counts_ok=False)]], "NoiseTrace.cfg")
+                                      [dict(g, counts_ok=False)], [dict(g, eager_members_independent=False)]], "NoiseTrace.cfg")
     if not res[0][0] or any(r[0] for r in res[1:]):
         raise Machinery(f"NoiseTrace self-test failed: {res}")
     ctx.notes["binding_selftest"] = {"good_accepted": True, "biased_mean_rejected": res[1][1], "chunk_dependence_rejected": res[2][1],
-                                    "shared_noise_rejected": res[3][1], "fractional_counts_rejected": res[4][1]}
+                                    "shared_noise_rejected": res[3][1], "fractional_counts_rejected": res[4][1], "correlated_members_of_one_block_rejected": res[5][1]}
 
 
 def run(ctx: Ctx):
     quick = ctx.tier == "quick"
     ctx.rule = ("(ensemble size M <= 4, chunking = every composition of M) enumerated by TLC x measurement type (4) x seed (fixed, None) x "
-                "samples (1, 3) x dose; every member has the same expectation so that shared noise is visible as bit-identical members; "
+                "samples (1, 3) x seed (None, 0, positive) x dose (two scalars, a series with a repeated entry, a series of two doses); every member has the same expectation so that shared noise is visible as bit-identical members; "
                 "non-trivial = more than one member")
     ctx.design_check("NoiseImpl", cfg_text=CFG.format(m=4, single="TRUE", emit="FALSE", inv="INVARIANT SameAsEager\nINVARIANT MembersDistinct"),
                      label="NoiseImpl single block")
@@ -143,10 +163,11 @@ def run(ctx: Ctx):
     evs = []
     for j, c in enumerate(cases):
         for k, typ in enumerate(TYPES if not quick else [TYPES[j % 4], TYPES[(j + 1) % 4]]):
-            seed = (7 + j) if (j + k) % 3 else None
+            seed = [None, 0, 7 + j][(j + k) % 3]              # 0 is a seed like any other
             samples = 3 if (j + k) % 4 == 0 else 1
-            evs.append(observe(c, typ, seed, samples, dose=50.0 if k % 2 else 400.0))
-            ctx.case((json.dumps(c), typ, seed is not None, samples), nontrivial=c["M"] > 1)
+            dose = [50.0, 400.0, [120.0, 120.0, 400.0], [60.0, 300.0]][(j // 2 + k) % 4]
+            evs.append(observe(c, typ, seed, samples, dose=dose))
+            ctx.case((json.dumps(c), typ, seed, samples, json.dumps(dose)), nontrivial=c["M"] > 1 or isinstance(dose, list))
     ctx.exhaustive = True
     for e in evs[:1] + evs[-1:]:
         ctx.sample(e)
@@ -155,7 +176,7 @@ def run(ctx: Ctx):
 
 def replay(ctx: Ctx, case):
     e = case["event"]
-    ev = observe(e["case"], e["typ"], 7 if e["seed_fixed"] else None, e["samples"], 400.0)
+    ev = observe(e["case"], e["typ"], (0 if e.get("seed_zero") else 7) if e["seed_fixed"] else None, e["samples"], [120.0, 120.0, 400.0] if e.get("dose_series") else 400.0)
     ctx.case("replay")
     ctx.sample(ev)
     judge(ctx, [ev])
